@@ -56,6 +56,34 @@ TYPE_NAMES = ["Self", "Person", "MyURL", "IOStat", "T2", "Config", "Type", "Fami
 ERROR_NAMES = ["Self", "NotFound", "NotOK", "IOError", "E2BIG", "Busy", "Type", "InvalidURL", "X", "No2FA", "Failed", "Match"]
 IFACE_LAST = ["9p", "self", "Ping", "ping", "myService", "FTL", "x2y", "foo-bar", "Machine", "io", "HTTPd", "a"]
 
+# grammar-driven names: word pieces (lower word, Capitalised word, ACRONYM, digits) glued directly or with a single
+# underscore, so that every class the name grammars allow turns up (`hashSha_256`, `maxAge_2`, `x_Y9`, `aB_c`), not
+# only the hand-picked ones above
+_LOW = ["a", "id", "max", "hash", "user", "x", "ip", "url", "age", "sha", "is", "fa", "v", "name"]
+_DIG = ["2", "9", "256", "3", "64", "0"]
+def _piece(rng, first):
+    k = rng.randint(0, 3 if not first else 2)
+    w = rng.choice(_LOW)
+    if k == 0: return w
+    if k == 1: return w[0].upper() + w[1:]
+    if k == 2: return w.upper()
+    return rng.choice(_DIG)
+def gram_field_name(rng):
+    # [A-Za-z](_?[A-Za-z0-9])*
+    out = _piece(rng, True)
+    for _ in range(rng.randint(0, 3)):
+        out += ("_" if rng.random() < 0.4 else "") + _piece(rng, False)
+    return out
+def gram_type_name(rng):
+    # [A-Z][A-Za-z0-9]*
+    out = _piece(rng, True)
+    out = out[0].upper() + out[1:]
+    for _ in range(rng.randint(0, 3)):
+        out += _piece(rng, False)
+    return out
+def with_gram(rng, pool, gen, k=6):
+    return pool + [gen(rng) for _ in range(k)]
+
 def rstr(rng):
     return "".join(rng.choice("abcxyzQR7 _-./:") for _ in range(rng.randint(0, 8)))
 
@@ -76,7 +104,7 @@ def gen_type(rng, customs, depth=0, allow_opt=True):
         return ("custom", rng.choice(customs)["name"])
     if r < 0.96:
         return ("struct", gen_fields(rng, customs, depth + 1, 1, 3))
-    return ("enum", pick_names(rng, SNAKE_VARIANT_NAMES if rng.random() < 0.35 else VARIANT_NAMES, rng.randint(1, 3), snake_unique=False))
+    return ("enum", pick_names(rng, SNAKE_VARIANT_NAMES if rng.random() < 0.35 else with_gram(rng, VARIANT_NAMES, gram_field_name, 4), rng.randint(1, 3), snake_unique=False))
 
 def pick_names(rng, pool, n, snake_unique=True, conv=snake):
     out, seen = [], set()
@@ -92,7 +120,7 @@ def pick_names(rng, pool, n, snake_unique=True, conv=snake):
     return out
 
 def gen_fields(rng, customs, depth, lo, hi):
-    names = pick_names(rng, FIELD_NAMES, rng.randint(lo, hi))
+    names = pick_names(rng, with_gram(rng, FIELD_NAMES, gram_field_name, 10), rng.randint(lo, hi))
     return [(n, gen_type(rng, customs, depth)) for n in names]
 
 def gen_iface(rng, i):
@@ -103,7 +131,7 @@ def gen_iface(rng, i):
     used = {trait, trait + "Error"}
     customs, methods, errors = [], [], []
     member_names = set()
-    for tn in pick_names(rng, TYPE_NAMES, rng.randint(0, 3), conv=pascal):
+    for tn in pick_names(rng, with_gram(rng, TYPE_NAMES, gram_type_name, 4), rng.randint(0, 3), conv=pascal):
         # collision-free means: free of collisions among the identifiers the generator emits (a type `Self` is
         # emitted as `Self_`, which is also what the trait of an interface `....self` is called)
         if pascal(tn) in used or rident(pascal(tn)) in used:
@@ -112,11 +140,11 @@ def gen_iface(rng, i):
         used.add(rident(pascal(tn)))
         member_names.add(tn)
         if rng.random() < 0.35:
-            vs = pick_names(rng, SNAKE_VARIANT_NAMES if rng.random() < 0.35 else VARIANT_NAMES, rng.randint(1, 4), conv=pascal)
+            vs = pick_names(rng, SNAKE_VARIANT_NAMES if rng.random() < 0.35 else with_gram(rng, VARIANT_NAMES, gram_field_name, 4), rng.randint(1, 4), conv=pascal)
             customs.append(dict(kind="enum", name=tn, variants=vs))
         else:
             customs.append(dict(kind="object", name=tn, fields=gen_fields(rng, customs, 0, 1, 4)))
-    for mn in pick_names(rng, METHOD_NAMES, rng.randint(1, 4)):
+    for mn in pick_names(rng, with_gram(rng, METHOD_NAMES, gram_type_name, 6), rng.randint(1, 4)):
         if mn in member_names:
             continue
         member_names.add(mn)
@@ -126,7 +154,7 @@ def gen_iface(rng, i):
                 continue
             used.add(pascal(mn) + "Output")
         methods.append(dict(name=mn, ins=gen_fields(rng, customs, 0, 0, 3), outs=outs))
-    for en in pick_names(rng, ERROR_NAMES, rng.randint(0, 3), conv=pascal):
+    for en in pick_names(rng, with_gram(rng, ERROR_NAMES, gram_type_name, 4), rng.randint(0, 3), conv=pascal):
         if en in member_names:
             continue
         member_names.add(en)
